@@ -174,3 +174,31 @@ class Report:
             return 2
         print(f"OK property={self.prop} tier={self.tier} evaluations={cov['evaluations']} distinct={cov['distinct_nontrivial']} wall={ev['wall_s']}s")
         return 0
+
+
+class Hang(BaseException):
+    """raised by `watchdog` in the main thread (BaseException: not swallowed by `except Exception` in the code under test)"""
+
+
+class watchdog:
+    """with watchdog(seconds): ...   -- a call into quansino that does not return within the budget raises Hang"""
+
+    def __init__(self, seconds):
+        self.seconds = seconds
+
+    def __enter__(self):
+        import signal
+
+        def handler(signum, frame):
+            raise Hang(f"no return within {self.seconds} s")
+
+        self._old = signal.signal(signal.SIGALRM, handler)
+        signal.setitimer(signal.ITIMER_REAL, self.seconds)
+        return self
+
+    def __exit__(self, *exc):
+        import signal
+
+        signal.setitimer(signal.ITIMER_REAL, 0)
+        signal.signal(signal.SIGALRM, self._old)
+        return False
